@@ -81,7 +81,16 @@ Section CSE.
     unfold cse_key_eqb in Hkey. apply andb_prop in Hkey. destruct Hkey as [Hkey Hat]. apply andb_prop in Hkey. destruct Hkey as [Hkey Hins].
     apply andb_prop in Hkey. destruct Hkey as [Hop Hlen]. apply opid_eqb_eq in Hop. apply Nat.eqb_eq in Hlen.
     apply (list_eqb_sound _ option_N_eqb_eq) in Hins. apply (list_eqb_sound_in _ _ _ Hfaith) in Hat.
-    unfold cse_replace. rewrite Hnout. simpl fst.
+    unfold cse_replace. rewrite Hnout. cbv zeta. simpl fst.
+    assert (Hgen : forall (F : node -> list node) (l : list node), (forall n, F n = [n]) -> flat_map F l = l).
+    { intros F l HF. induction l as [|x l IHl]; simpl; [reflexivity|]. rewrite HF, IHl. reflexivity. }
+    rewrite Hgen by (intros n; destruct (has_key (node_key rem) n); reflexivity).
+    match goal with |- context [mkModel (mkGraph (g_ins ?g) (g_inits ?g) (g_nodes ?g) (g_outs (m_main m))) ?ss ?ff] =>
+      assert (Hm2 : mkModel (mkGraph (g_ins g) (g_inits g) (g_nodes g) (g_outs (m_main m))) ss ff
+                    = fold_left (fun m vw => replace_uses false (fst vw) (snd vw) m) (combine (n_outs rem) (n_outs keep)) m)
+    end.
+    { rewrite fold_replace_eq. unfold map_graphs. simpl. reflexivity. }
+    rewrite Hm2. clear Hm2.
     set (pairs := combine (n_outs rem) (n_outs keep)). set (k := node_key rem). set (sg := sg_pairs pairs).
     rewrite fold_replace_eq.
     assert (Hnd_rem : NoDup (n_outs rem)) by (eapply node_outs_nodup; eauto).
